@@ -147,37 +147,46 @@ class FileProxy(object):
         return iter(self._real)
 
 
+_PKG_MODULES = {}
+
+
 class Patched(object):
-    """context manager rebinding os / tempfile / py_compile in a writer module"""
+    """context manager rebinding os / tempfile / py_compile / open in a writer module - and in the other
+    modules of its package, should the I/O steps have been moved into a shared base module"""
 
     def __init__(self, module, plan):
-        self.module = module
+        import sys
+        pkg = module.__name__.rsplit('.', 1)[0]
+        if pkg not in _PKG_MODULES:
+            _PKG_MODULES[pkg] = [m for n, m in sorted(sys.modules.items())
+                                 if m is not None and (n == pkg or n.startswith(pkg + '.'))]
+        self.modules = [module] + [m for m in _PKG_MODULES[pkg] if m is not module]
         self.plan = plan
-        self.saved = {}
+        self.saved = []
 
     def __enter__(self):
         import tempfile
         import py_compile
-        for name, real in (('os', os), ('tempfile', tempfile), ('py_compile', py_compile)):
-            if hasattr(self.module, name):
-                self.saved[name] = getattr(self.module, name)
-                setattr(self.module, name, Proxy(real, name, self.plan))
         import builtins
-        self.had_open = 'open' in vars(self.module)
-        self.saved_open = vars(self.module).get('open')
-        self.module.open = Proxy(builtins, 'builtins', self.plan).open
+        for mod in self.modules:
+            for name, real in (('os', os), ('tempfile', tempfile), ('py_compile', py_compile)):
+                if name in vars(mod):
+                    self.saved.append((mod, name, True, vars(mod)[name]))
+                    setattr(mod, name, Proxy(real, name, self.plan))
+            self.saved.append((mod, 'open', 'open' in vars(mod), vars(mod).get('open')))
+            mod.open = Proxy(builtins, 'builtins', self.plan).open
         return self.plan
 
     def __exit__(self, *exc):
-        for name, val in self.saved.items():
-            setattr(self.module, name, val)
-        if self.had_open:
-            self.module.open = self.saved_open
-        else:
-            try:
-                del self.module.open
-            except AttributeError:
-                pass
+        for mod, name, had, val in self.saved:
+            if had:
+                setattr(mod, name, val)
+            else:
+                try:
+                    delattr(mod, name)
+                except AttributeError:
+                    pass
+        self.saved = []
         return False
 
 
